@@ -345,8 +345,12 @@ def _picked(ctx, f):
                 t[3][0][0] == "lambda" and len(t[3][0][1]) == 1:
             lx = ("lparam", t[3][0][1][0])
             body = t[3][0][2]
-            ok_l = body == ("mcall", ("attr", P[p_prot], "protein_map"),
-                            "get", (lx, lx), ())
+            PM = ("attr", P[p_prot], "protein_map")
+            # d.get(x, x)  /  d[x] if x in d else x  /  x if x not in d ...
+            ok_l = body in (
+                ("mcall", PM, "get", (lx, lx), ()),
+                ("ifexp", ("cmp", "in", lx, PM), ("sub", PM, lx), lx),
+                ("ifexp", ("cmp", "not in", lx, PM), lx, ("sub", PM, lx)))
             base = t[1]
             ok_b = (base[0] == "sub" and base[2] == ("const", 0)
                     and base[1][0] == "mcall" and base[1][2] == "split"
@@ -430,8 +434,13 @@ def _groupby_max(ctx, f):
     keep = chain[2][2].get("keep", ("const", "first"))
     by = sv_args[0] if sv_args else sv_kw.get("by")
     by_txt = tkey(by, 200) if by else ""
-    ends_with_max = by is not None and by[0] == "bin" and by[1] == "+" \
-        and by[3] == ("list", (("param", p_max),))
+    # sort keys = the group columns followed by the score column, in any
+    # spelling of that list (cols + [m], [*cols, m] ...)
+    from ..tutil import seq_concat
+    by_parts = seq_concat(by) if by is not None else []
+    ends_with_max = len(by_parts) == 2 and by_parts[0][0] == "splice" and \
+        by_parts[1] == ("item", ("param", p_max))
+    GROUP_COLS = by_parts[0][1] if ends_with_max else None
     ok_dir = (asc == ("const", True) and keep == ("const", "last")) or (
         asc == ("const", False) and keep == ("const", "first"))
     ctx.check(ends_with_max, "C15b-sorted-by-group-then-score", f,
@@ -452,7 +461,7 @@ def _groupby_max(ctx, f):
             t = t[2][0]
         return t
     ok_dd = bool(dd) and tkey(as_sequence(dd[0])) == tkey(
-        as_sequence(by[2])) if ends_with_max else False
+        as_sequence(GROUP_COLS)) if ends_with_max else False
     ctx.check(ok_dd, "C15b-one-row-per-group", f,
               "duplicates are dropped on exactly the group columns",
               f"drop_duplicates({[show(d, 60) for d in dd]})",
